@@ -179,11 +179,11 @@ func c16Judge(shape string, script []c16Op, res c16Result, failAt int) (out []jv
 
 type recProvider struct {
 	returnSendErr bool
-	subs      []sse.Subscription
-	subErr    error
-	pubs      [][]string
-	sendInSub []*sse.Message
-	sendErrs  []error
+	subs          []sse.Subscription
+	subErr        error
+	pubs          [][]string
+	sendInSub     []*sse.Message
+	sendErrs      []error
 }
 
 func (p *recProvider) Subscribe(_ context.Context, s sse.Subscription) error {
